@@ -217,3 +217,37 @@ func verifC08AroundECH() {
 	vReach("newconn-ok")
 	vAssert(!c.ECHAccepted(), "nothing was sealed: ECH cannot be accepted")
 }
+
+// verifC08InnerRaw: the ECH config is public, so any client can seal any bytes
+// to it: the decrypted "EncodedClientHelloInner" is attacker-chosen.  Arbitrary
+// plaintext of up to 44+slack bytes (and, pinned fixed part, a raw inner
+// extension block) must never crash NewConn or the following Reads.
+func verifC08InnerRaw() {
+	name := []byte("pub.example")
+	k := vMakeKey(0, vByte(), [][2]uint16{{1, 1}}, name)
+	outer := vHello{version: 0x0303, random: vBytes(32), sid: vBytes(1), suites: []byte{0x13, 0x01}, comp: []byte{0}}
+	outer.exts = []vExt{vSNI(name), vVersions(0x0304), {51, vBytes(1)}, {0xfe0d, nil}}
+	var pt []byte
+	if vBool() {
+		slack := 2 + 2*vTier()
+		pt = vBytes(vInt(0, 40+slack)) // fully raw inner encoding
+	} else {
+		maxE := 13 + 3*vTier()
+		e := vBytes(vInt(0, maxE)) // pinned fixed part, raw inner extension block
+		pt = vCat([]byte{0x03, 0x03}, vBytes(32), []byte{0x00, 0x00, 0x02, 0x13, 0x01, 0x01, 0x00}, vU16(len(e)), e, make([]byte, vInt(0, 1)))
+	}
+	s := vSeal(k, 1, 1, outer, 3, pt)
+	tr := newVTransport(s.outer.record())
+	c, err := NewConn(context.Background(), tr, WithKeys([]Key{k.key()}))
+	vObserve(err == nil, len(pt))
+	if err != nil {
+		vReach("inner-refused")
+		vAssert(len(tr.out) == 7 && tr.closed, "a refused inner hello is answered with one alert and end of stream")
+		return
+	}
+	vReach("inner-ok")
+	// (an authentic but empty plaintext is treated like a failed decryption: the
+	// AEAD returns a nil slice and the outer hello is passed through)
+	vAssert(c.ECHAccepted() || len(pt) == 0, "an authentic payload with a well-formed inner hello is accepted")
+	vC08Reads(c, 2)
+}
